@@ -580,6 +580,12 @@ func canonicalisable(t types.Type) bool {
 	switch u := t.Underlying().(type) {
 	case *types.Basic:
 		return u.Info()&(types.IsString|types.IsInteger|types.IsBoolean|types.IsFloat) != 0
+	case *types.Interface:
+		// (added for mapsim/C15: astool's jen.Dict is map[jen.Code]jen.Code) the
+		// dynamic key type decides at run time: simKeyName either names every key
+		// uniquely (e.g. *jen.Statement through GoString) or SimUncontrolled fires
+		// and the site keeps runtime order, so accepting the site fails closed.
+		return true
 	}
 	for _, m := range []string{"VerifKeyName", "String", "GetName", "TypeName", "PropertyName", "GoString"} {
 		obj, _, _ := types.LookupFieldOrMethod(t, true, nil, m)
